@@ -86,7 +86,12 @@ def check_C02(ctx):
     for k in range(ctx.scale(400, 6000)):
         w = simple_world(r, envelope=True, pathy=0.2)
         f = files_of(r, w)
-        pc.append(dict(files=f, cmd="reg", **NOCOLOR)); metas.append(w)
+        per = {}
+        hs = [h for h, _ in log_days(w)]
+        if hs and k % 3 == 0:       # with a period on a log whose days may be out of order: the selected days, still in file order
+            per = {r.choice(["g_end", "l_end", "g_begin", "l_begin"]): r.choice(hs)}
+            if r.random() < 0.3: per["g_end" if "g_begin" in per or "l_begin" in per else "g_begin"] = r.choice(hs)
+        pc.append(dict(files=f, cmd="reg", **per, **NOCOLOR)); metas.append(w)
         pc.append(dict(files=f, cmd="csv-db-resolved", **NOCOLOR)); metas.append(w)
     ires = impl_only(ctx, pc)
     for j in range(0, len(pc), 2):
@@ -100,6 +105,8 @@ def check_C02(ctx):
         except ValueError as e:
             ctx.violation("C02:unparsable-register", "register output does not have the register's shape: %s" % e, dict(kind="cli", case=pc[j], impl=reg)); continue
         want_days = log_days(w)
+        lo = pc[j].get("l_begin") or pc[j].get("g_begin"); hi = pc[j].get("l_end") or pc[j].get("g_end")
+        want_days = [(h, es) for h, es in want_days if (lo is None or h >= lo) and (hi is None or h <= hi)]       # the layout 2006/01/02 orders as text
         rep = dict(kind="cli", case=pc[j], impl=reg)
         if [d[0] for d in got] != [h.encode() for h, _ in want_days]:
             ctx.violation("C02:days-not-in-file-order", "days shown %r, days of the file %r" % ([d[0] for d in got][:6], [h for h, _ in want_days][:6]), rep); continue
